@@ -22,6 +22,7 @@
 #include <opentelemetry/trace/span_context.h>
 #include <opentelemetry/trace/tracer.h>
 
+#include <sys/time.h>
 #include "seq/vf_seq.h"
 
 namespace nostd = opentelemetry::nostd;
@@ -558,7 +559,13 @@ void run_deep(vf::Ctx &c) {
   // A deep execution takes milliseconds. If the code under test spins (Detach's pop loop never terminates when a frame
   // it is looking for has been lost) the verdict should not wait for the core's 30 s alarm (120 s in the confirming
   // replays): this part shortens the watchdog of its own executions to 10 s. The core re-arms / clears it afterwards.
-  alarm(10);
+  {
+    // CPU time, not wall-clock time: a wall-clock watchdog fires spuriously on an overloaded machine
+    struct itimerval it;
+    memset(&it, 0, sizeof it);
+    it.it_value.tv_sec = 10;
+    setitimer(ITIMER_PROF, &it, nullptr);
+  }
   size_t max_capacity = 0;
   {
     StackWorld w;
